@@ -43,6 +43,10 @@ pub struct XargsScenario {
     #[serde(default)]
     pub real: Option<RealKind>,
     pub note: String,
+    /// a file named like the (bare) command exists in the current directory: it is not on
+    /// PATH, so a command that cannot be found stays "not found"
+    #[serde(default)]
+    pub decoy_in_cwd: bool,
 }
 
 /// What really runs in pass-through mode. `cmd[0]` of the scenario is then a
@@ -145,6 +149,12 @@ pub fn run_xargs_with(sc: &XargsScenario, plan: &[ReadOp], ctx: &mut Ctx) -> Xar
         sticky_err: None,
         budget: READ_BUDGET,
     };
+    let _ = std::env::set_current_dir(&ctx.scratch);
+    if sc.decoy_in_cwd && !sc.cmd.is_empty() && !sc.cmd[0].contains('/') {
+        let _ = std::fs::write(ctx.scratch.join(&sc.cmd[0]), b"#!/bin/sh\nexit 0\n");
+    } else if !sc.cmd.is_empty() && !sc.cmd[0].contains('/') {
+        let _ = std::fs::remove_file(ctx.scratch.join(&sc.cmd[0]));
+    }
     // pass-through mode: resolve the placeholder command
     let mut cmd = sc.cmd.clone();
     let mut log_path = None;
